@@ -1530,9 +1530,34 @@ fn emit_doc_faults(seed: u64, tier: Tier, unit: u64, sink: &mut dyn FnMut(Plan) 
                 origin: format!("{}; {}", doc.recipe, f.what),
             });
         };
-        jsonf::truncations(&text, &mut go);
+        // complete per document up to a size; beyond it (the enumeration is quadratic in the
+        // document size) on every stride-th byte / field, the phase seeded
+        // (the cost of one faulted load grows with the document: the budget is in
+        // byte x plans, about a CPU-minute per document in the thorough tier)
+        let work: usize = if tier == Tier::Quick { 400_000_000 } else { 4_000_000_000 };
+        let plans = (work / text.len().max(1)).max(2_000);
+        let budget = plans / 2;
+        let tstride = (text.len() + budget - 1) / budget;
+        let phase = rng.below(1 << 20) as usize;
+        jsonf::truncations_on(&text, tstride.max(1), phase, &mut go);
         if let Ok(tree) = jsonf::parse(&text) {
-            jsonf::structured_faults(&tree, &mut go);
+            let nfields = jsonf::paths(&tree).len();
+            let fbudget = (plans / 2 / 45).max(20);
+            let fstride = ((nfields + fbudget - 1) / fbudget).max(1);
+            if fstride > 1 || tstride > 1 {
+                go(jsonf::Faulted {
+                    kind: "NONE",
+                    what: format!(
+                        "large document ({} bytes, {} fields): faults on every {}th field / {}th cut",
+                        text.len(),
+                        nfields,
+                        fstride,
+                        tstride.max(1)
+                    ),
+                    text: text.clone(),
+                });
+            }
+            jsonf::structured_faults_on(&tree, fstride, phase, &mut go);
             jsonf::ndarray_resizes(&tree, &mut go);
             jsonf::toplevel_combos(&tree, if tier == Tier::Quick { 1500 } else { 20_000 }, &mut go);
             // coordinated multi-field faults: subsets of fields made degenerate together -
@@ -2580,11 +2605,15 @@ impl Scenario for C20 {
         doc_units(tier) + call_units(tier)
     }
     fn unit(seed: u64, tier: Tier, unit: u64, sink: &mut dyn FnMut(Plan) -> bool) {
+        // document units (heavy: tens of thousands of faulted loads each) are spread evenly
+        // over the unit range, hence over the worker processes
         let nd = doc_units(tier);
-        if unit < nd {
-            emit_doc_faults(seed, tier, unit, sink);
+        let stride = (Self::units(tier) / nd.max(1)).max(1);
+        if unit % stride == 0 && unit / stride < nd {
+            emit_doc_faults(seed, tier, unit / stride, sink);
         } else {
-            emit_calls(seed, tier, unit - nd, sink);
+            let docs_before = nd.min((unit + stride - 1) / stride);
+            emit_calls(seed, tier, unit - docs_before, sink);
         }
     }
     fn execute(plan: &Plan, obs: &mut Obs) -> Result<(), Fail> {
@@ -2655,7 +2684,8 @@ impl Scenario for C20 {
             "state_abstraction": "(loader, fault kind, outcome class in {error, accepted-but-altered, ok})",
             "fault_subspaces_enumerated_completely_in_thorough_only": ["SPLICE (every offset)"],
             "generation_only_units": call_units(tier),
-            "exhaustive_note": "exhaustive per document over the listed sub-spaces; the documents themselves are a seeded sample, hence exhaustive=false overall"
+            "size_budget": "complete per document up to a work budget of 0.4 (quick) / 4 (thorough) GB of byte x plans per document variant; for larger documents (curves of a hundred Dual2 nodes and the like) TRUNC is taken at every k-th byte (plus the first and last 64 cuts) and the structured faults on every k-th field (each chosen field with its complete set of faults; fields at depth <= 2 always), k and the phase recorded in the origin of a marker plan",
+            "exhaustive_note": "exhaustive per document over the listed sub-spaces (within the size budget); the documents themselves are a seeded sample, hence exhaustive=false overall"
         })
     }
 }
